@@ -181,7 +181,7 @@ class GroupMachine(Machine):
                     ops.append({"op": "caller.mutate", "how": rng.choice(["append", "pop", "clear"]), "i": rng.randrange(6)})
             elif u < 0.58:
                 a = rng.choice(focus)
-                kinds = ["scalar", "scalar", "list", "tuple", "short", "long", "empty"]
+                kinds = ["scalar", "scalar", "list", "tuple", "short", "long", "empty", "first"]
                 if ndarray_ok(cls, a) and VAL[a] not in ("engine", "targets", "point", "vector"):
                     kinds.append("ndarray")
                 ops.append({"op": "set", "attr": a, "kind": rng.choice(kinds), "values": [gen_scalar(rng, a) for _ in range(8)]})
@@ -589,6 +589,20 @@ class GroupMachine(Machine):
         n = len(c.members)
         kind = op["kind"]
         raw = op["values"]
+        if kind == "first":
+            # the single value the first member already holds (the others may differ): every member must take it
+            if n < 2 or VAL[a] in ("engine", "targets", "point", "vector") or a in ("display_progress", "accumulate"):
+                return "noop", ""
+            val = getattr(c.pool[c.members[0]], a)
+            try:
+                setattr(g, a, val)
+            except Exception as e:
+                raise Violation("scalar-broadcast", "%s.%s" % (c.gname, a), "group.%s = %r raised %s: %s" % (a, val, type(e).__name__, e))
+            for i in c.members:
+                c.model[i][a] = self._expected_member_value(c, c.pool[i], a, val)
+            c.mutations += 1
+            env.probe("scalar_equal_to_first_member")
+            return "ok", "first"
         if kind == "scalar":
             val = self._val(c, raw[0])
             if VAL[a] == "targets":
@@ -630,10 +644,15 @@ class GroupMachine(Machine):
             m = n + 1
         else:
             m = 0 if n > 0 else 2
+            if n == 0 and VAL[a] == "targets" and op.get("values") and len(raw) % 2 == 0:
+                # group of size 0: the empty sequence has the group's length and must be accepted as a no-op
+                try:
+                    setattr(g, a, [])
+                except Exception as e:
+                    raise Violation("sequence-broadcast", "%s.%s" % (c.gname, a), "group.%s = [] on an empty group raised %s: %s" % (
+                        a, type(e).__name__, e))
+                return "ok", "empty-on-empty"
         vals = [self._val(c, v) for v in (raw * 2)[:m]]
-        if VAL[a] == "targets" and m == 0:
-            # an empty list is "a list of primitives" for the targets setter, not a sequence of target lists
-            return "noop", ""
         env.fault_armed("reject-length")
         try:
             setattr(g, a, vals)
